@@ -359,7 +359,8 @@ pub fn run(args: &[String]) {
     // import left implicit (a single-node composition per generated component)
     {
         use rayon::prelude::*;
-        let cases = mc_core::witgen::enumerate(tier);
+        let mut cases = mc_core::witgen::enumerate(tier);
+        cases.extend(mc_core::witgen::enumerate_worlds(tier));
         let jobs: Vec<(usize, String)> = cases.iter().enumerate().flat_map(|(i, c)| c.worlds.iter().map(move |w| (i, w.clone()))).collect();
         let outs: Vec<(usize, String, Vec<Viol>, Vec<&'static str>)> = jobs
             .par_iter()
@@ -395,7 +396,7 @@ pub fn run(args: &[String]) {
         }
         total.states += n;
         total.transitions += n;
-        per_lib.push(json!({"library": "LibWit", "states": n, "encode_outcomes": classes_count, "packages": "every world of mc-core witgen"}));
+        per_lib.push(json!({"library": "LibWit", "states": n, "encode_outcomes": classes_count, "packages": "every world of mc-core witgen, incl. the world-shape product family"}));
     }
     // cases that abort the process are run in supervised subprocesses
     let mut isolated = 0;
